@@ -52,17 +52,28 @@ def make_scratch():
 
 
 _built = {}
+MODE = {'internal': True, 'internal_error': ''}
 
 
 def build():
     """returns (scratch_dir, exe). Caller must call cleanup(scratch_dir)."""
     d = make_scratch()
     env = dict(os.environ)
-    env['RUSTFLAGS'] = '--cfg openbangla_riti_verif -A warnings'
     env['CARGO_TARGET_DIR'] = TARGET
     env['CARGO_NET_OFFLINE'] = 'true'
+    # first with the hooks into private items; if those no longer compile against the current tree (a field was added or made
+    # private), without them: the API-level checks still run, the checks of internal functions are then undecided
+    MODE['internal'] = True
+    MODE['internal_error'] = ''
+    env['RUSTFLAGS'] = '--cfg openbangla_riti_verif --cfg openbangla_riti_verif_internal -A warnings'
     p = subprocess.run(['cargo', 'build', '--offline', '--release', '--example', 'verif_driver'],
                        cwd=d, env=env, capture_output=True, text=True)
+    if p.returncode != 0:
+        MODE['internal'] = False
+        MODE['internal_error'] = p.stderr[-1500:]
+        env['RUSTFLAGS'] = '--cfg openbangla_riti_verif -A warnings'
+        p = subprocess.run(['cargo', 'build', '--offline', '--release', '--example', 'verif_driver'],
+                           cwd=d, env=env, capture_output=True, text=True)
     if p.returncode != 0:
         shutil.rmtree(d, ignore_errors=True)
         raise DriverError('driver build failed:\n' + p.stderr[-4000:])
